@@ -111,6 +111,9 @@ type Case struct {
 	Depth int       `json:"depth"`
 	Wraps []string  `json:"wraps"`
 	Loop  int       `json:"loop"`
+	// Top: the failing form (under its wrappers) is itself a top-level form,
+	// evaluated in the root environment, not in a function body
+	Top bool `json:"top,omitempty"`
 }
 
 var S, I, L, QS, QL = gen.S, gen.I, gen.L, gen.QS, gen.QL
@@ -240,6 +243,25 @@ func failForm(kind string) gen.Val {
 		return L(S("set!"), S("no-such-var"), L(S("+"), S("x"), I(1)))
 	case "set-constant":
 		return L(S("set!"), S("true"), S("x"))
+	case "let-bad-binding-after-load":
+		// the operator rejects its arguments after one of them ran a nested load
+		return L(S("let"), L(L(S("t1"), L(S("load-string"), gen.Str("1"))), L(S("t2"))), S("x"))
+	case "let*-bad-binding-after-load":
+		return L(S("let*"), L(L(S("t1"), L(S("load-string"), gen.Str("1"))), L(S("t2"))), S("x"))
+	case "type-after-load":
+		return L(S("car"), L(S("load-string"), gen.Str("1")))
+	case "assert-after-load":
+		return L(S("assert"), L(S("nil?"), L(S("load-string"), gen.Str("1"))))
+	case "eval-built-symbol":
+		// a symbol made at run time (no position) handed to eval
+		return L(S("eval"), L(S("gensym")))
+	case "head-compound-nonfn":
+		// the head is a compound form whose value is not a function
+		return L(L(S("progn"), I(5)), S("x"))
+	case "head-compound-nonfn-if":
+		return L(L(S("if"), S("true"), L(S("list"), I(1), S("x")), I(3)), S("x"))
+	case "head-call-nonfn":
+		return L(L(L(S("lambda"), L(), I(5))), S("x"))
 	default:
 		return L(S("mod"), S("x"), I(0))
 	}
@@ -250,8 +272,35 @@ var failKinds = []string{"unbound", "unbound-head", "error", "type", "type2", "a
 	"funcall-nonfn", "head-nonfn", "assert", "assert-msg", "error-custom", "rethrow-outside", "unknown-package", "callback-builtin", "foldl-builtin", "apply-arity",
 	"aref-range", "get-type", "sorted-map-odd", "in-handler", "keyword-unknown", "optional-too-many", "lambda-call-arity", "set-quoted-constant", "dotimes-type", "div-zero",
 	"macro-arity", "macro-body-error", "arg-of-user-call", "let-init", "let*-init2", "if-condition", "cond-test", "dotimes-count", "and-first", "progn-middle",
-	"thread-last", "thread-first-arg", "tail-self-arity", "tail-self-arity-if", "set-value", "flet-bad-binding", "let-bad-binding", "lambda-bad-formals"}
-var wrapKinds = []string{"raw-string-before", "raw-string-before", "callback-after-tail-loop", "callback-after-tail-loop", "let", "let*", "cond", "dotimes", "handler-bind", "progn", "if", "plus-arg", "map-callback", "funcall", "apply", "labels", "flet", "and", "or-last", "thread-first", "foldl"}
+	"thread-last", "thread-first-arg", "tail-self-arity", "tail-self-arity-if", "set-value", "flet-bad-binding", "let-bad-binding", "lambda-bad-formals",
+	"let-bad-binding-after-load", "let*-bad-binding-after-load", "type-after-load", "assert-after-load", "eval-built-symbol", "head-compound-nonfn", "head-compound-nonfn-if", "head-call-nonfn"}
+
+// Classes in which the UNCHANGED tree violates the statement (reported to the
+// lead, not yet registered as known findings): drawn, counted under
+// skip/pending-finding/..., not evaluated -- except when replaying a saved
+// case (harness/c18/pending/*.json).
+var pendingKinds = map[string]string{
+	// known finding location/wrong-form/eval-built-symbol (known_findings.json);
+	// the three other classes found in round 7 were repaired in /repo
+	// (6a0448a nested load, and the two commits after it) and are searched
+	"eval-built-symbol": "positionless-symbol-located-at-function-call-site",
+}
+var pendingWraps = map[string]string{}
+
+func pendingOf(cs Case) string {
+	// the -after-load kinds go wrong only in the root environment
+	if p := pendingKinds[cs.Kind]; p != "" && (cs.Top || !strings.HasSuffix(cs.Kind, "-after-load")) {
+		return p
+	}
+	for _, w := range cs.Wraps {
+		if p := pendingWraps[w]; p != "" {
+			return p
+		}
+	}
+	return ""
+}
+var wrapKinds = []string{"raw-string-before", "raw-string-before", "callback-after-tail-loop", "callback-after-tail-loop", "let", "let*", "cond", "dotimes", "handler-bind", "progn", "if", "plus-arg", "map-callback", "funcall", "apply", "labels", "flet", "and", "or-last", "thread-first", "foldl",
+	"nested-load-before", "nested-load-arg-before", "search-sorted-callback", "flip-callback", "stable-sort-callback", "unpack-callback"}
 
 func wrap(kind string, inner gen.Val) gen.Val {
 	switch kind {
@@ -263,6 +312,19 @@ func wrap(kind string, inner gen.Val) gen.Val {
 		// self tail loop, the second one fails
 		return L(S("labels"), L(L(S("cbk"), L(S("k")), L(S("if"), L(S(">"), S("k"), I(0)), L(S("cbk"), L(S("-"), S("k"), I(1))), L(S("if"), L(S("="), S("k"), I(-1)), inner, S("k"))))),
 			L(S("map"), QS("list"), S("cbk"), L(S("list"), I(2), I(-1))))
+	case "nested-load-before":
+		// a nested load ran (and moved the root environment's location) before the form
+		return L(S("progn"), L(S("load-string"), gen.Str("1")), inner)
+	case "nested-load-arg-before":
+		return L(S("list"), L(S("load-string"), gen.Str("1")), inner)
+	case "search-sorted-callback":
+		return L(S("search-sorted"), I(4), L(S("lambda"), L(S("e")), inner))
+	case "flip-callback":
+		return L(S("funcall"), L(S("flip"), L(S("lambda"), L(S("e"), S("e2")), inner)), I(1), I(2))
+	case "stable-sort-callback":
+		return L(S("stable-sort"), L(S("lambda"), L(S("e"), S("e2")), inner), QL(I(1), I(2)))
+	case "unpack-callback":
+		return L(S("unpack"), L(S("lambda"), L(S("e"), S("e2")), inner), QL(I(1), I(2)))
 	case "let":
 		return L(S("let"), L(L(S("t1"), L(S("+"), S("x"), I(1)))), inner)
 	case "let*":
@@ -324,6 +386,18 @@ func genCase() *rapid.Generator[Case] {
 			Loop:  rapid.SampledFrom([]int{0, 0, 0, 2, 5}).Draw(t, "loop"),
 		}
 		forms := prelude()
+		if rapid.IntRange(0, 6).Draw(t, "top") == 0 && !strings.HasPrefix(c.Kind, "tail-self") {
+			c.Top, c.Depth, c.Loop = true, 0, 0
+			body := failForm(c.Kind)
+			for i, nw := 0, rapid.IntRange(0, 3).Draw(t, "nwraps"); i < nw; i++ {
+				w := rapid.SampledFrom(wrapKinds).Draw(t, "wrap")
+				c.Wraps = append(c.Wraps, w)
+				body = wrap(w, body)
+			}
+			c.Forms = append(forms, L(S("set"), QS("x"), I(7)), body)
+			c.Seps = rapid.SliceOfN(rapid.SampledFrom(sepPool), 8, 40).Draw(t, "seps")
+			return c
+		}
 		// the failing form sits in the innermost function, under wrappers
 		body := failFormIn(c.Kind, fmt.Sprintf("f%d", c.Depth-1))
 		for d := c.Depth - 1; d >= 0; d-- {
@@ -416,7 +490,12 @@ func check(cs Case, c *vcommon.Ctx) *vcommon.Failure {
 	}
 	src, pos := renderLayout(cs.Forms, cs.Seps)
 	// reference: failing node and active-call chain
+	if pend := pendingOf(cs); pend != "" && !c.Replay {
+		c.Class("skip/pending-finding/" + pend)
+		return nil
+	}
 	in := refint.New()
+	in.Sources = map[string][]*refint.V{"1": {refint.Int(1)}}
 	p := 0
 	forms := make([]*refint.V, len(cs.Forms))
 	for i, f := range cs.Forms {
@@ -433,6 +512,9 @@ func check(cs Case, c *vcommon.Ctx) *vcommon.Failure {
 	}
 	if cs.Loop > 0 {
 		c.Class("tail-loop-before")
+	}
+	if cs.Top {
+		c.Class("failing-form-at-top-level")
 	}
 	want, okNode := pos[rerr.Node]
 	if !okNode {
@@ -470,6 +552,9 @@ func check(cs Case, c *vcommon.Ctx) *vcommon.Failure {
 		if !ok {
 			return vcommon.Failf("location/missing/"+cs.Kind, "the error carries no location (debugger=%v): %s\n%s", dbg, out.Msg, src)
 		}
+		if loc.File != "test.lisp" {
+			return vcommon.Failf("location/other-source/"+cs.Kind, "error %q (%s) is located at %s:%d:%d, outside the loaded source test.lisp; the failing form is at %d:%d (debugger=%v)\n%s", out.Cond, out.Msg, loc.File, loc.Line, loc.Col, want.Line, want.Col, dbg, src)
+		}
 		if loc.Pos < 0 || loc.Pos >= len(src) {
 			return vcommon.Failf("location/outside-source/"+cs.Kind, "location %d:%d (offset %d) is outside the source (%d bytes)\n%s", loc.Line, loc.Col, loc.Pos, len(src), src)
 		}
@@ -479,6 +564,13 @@ func check(cs Case, c *vcommon.Ctx) *vcommon.Failure {
 			// for a function rejecting its arguments": for a rejected assignment
 			// both readings are accepted (the set! form is two nodes before its
 			// target symbol in pre-order)
+			gotLoc = want
+		}
+		if alt, ok := pos[rerr.Node-1]; ok && strings.HasPrefix(cs.Kind, "head-") && strings.Contains(cs.Kind, "nonfn") && gotLoc == alt {
+			// a head whose value is not a function: "the form whose evaluation
+			// raised it" is the call expression (the node before its head in
+			// pre-order); the head element is accepted as well, anything INSIDE
+			// the head is not
 			gotLoc = want
 		}
 		if gotLoc != want {
@@ -669,5 +761,6 @@ func TestCheck(t *testing.T) {
 	vcommon.Main(t, "C18",
 		vcommon.S("failing-programs", 60000, 1500000, genCase(), check),
 		vcommon.S("nested-load", 6000, 150000, genNested(), checkNested),
+		vcommon.S("nested-handling", 10000, 250000, genHandling(), checkHandling),
 	)
 }
